@@ -145,16 +145,22 @@ theorem lookup_known (m : Migration) (site : String) (f : Table → M Table) (id
 
 end Migration
 
+/-- every column record of the model table carries the type the reference table gives the column of that name -/
+def TypesOK (tm : Table) (tb : TableSpec) : Prop :=
+  ∀ c ∈ tm.cols, ∃ cs ∈ tb.cols, cs.name = c.name ∧ c.cur.typ = some cs.typ
+
 /-- what is carried through the script -/
 structure Rel (m : Migration) (db : DB) : Prop where
   inv : m.Inv
   np : m.NoPending
   fresh : ∀ t ∈ m.tables, t.AllAdd ∧ t.action = .add
   view : colView m = specView db
+  types : ∀ (i : Nat) (tm : Table) (tb : TableSpec), m.tables[i]? = some tm → db[i]? = some tb → TypesOK tm tb
 
 namespace Rel
 
-theorem empty : Rel {} [] := ⟨Migration.inv_empty, Migration.noPending_empty, (by intro t ht; cases ht), rfl⟩
+theorem empty : Rel {} [] :=
+  ⟨Migration.inv_empty, Migration.noPending_empty, (by intro t ht; cases ht), rfl, (by intro i tm tb h _; simp at h)⟩
 
 variable {m : Migration} {db : DB}
 
@@ -169,22 +175,23 @@ theorem length_eq (h : Rel m db) : db.length = m.tables.length := by
 
 /-- `Rel` sees the tables and the table map only -/
 theorem of_tables {m' : Migration} (h : Rel m db) (ht : m'.tables = m.tables) (hi : m'.tblIdx = m.tblIdx) : Rel m' db := by
-  refine ⟨⟨?_, ?_⟩, ?_, ?_, ?_⟩
+  refine ⟨⟨?_, ?_⟩, ?_, ?_, ?_, ?_⟩
   · show NInv (m'.tables.map (·.name)) m'.tblIdx
     rw [ht, hi]; exact h.inv.tbls
   · intro x hx; rw [ht] at hx; exact h.inv.each x hx
   · intro x hx; rw [ht] at hx; exact h.np x hx
   · intro x hx; rw [ht] at hx; exact h.fresh x hx
   · unfold colView; rw [ht]; exact h.view
+  · intro i tm tb h1 h2; rw [ht] at h1; exact h.types i tm tb h1 h2
 
 theorem using_ (h : Rel m db) (x : String) : Rel (m.using_ x) db :=
   ⟨Migration.using_inv m x h.inv, using_noPending m x h.np, by rw [using_tables]; exact h.fresh,
-   by unfold colView; rw [using_tables]; exact h.view⟩
+   by unfold colView; rw [using_tables]; exact h.view, by rw [using_tables]; exact h.types⟩
 
 /-- the table a well-formed statement names, on both sides -/
 theorem lookup (h : Rel m db) {t : String} {tb : TableSpec} (hf : db.find t = some tb) :
     ∃ id tm, m.tblIdx.get? t = some id ∧ m.tables[id]? = some tm ∧ db[id]? = some tb ∧ tm.name = t ∧
-      tm.colNames = tb.colNames ∧ tb.name = t := by
+      tm.colNames = tb.colNames ∧ tb.name = t ∧ TypesOK tm tb := by
   unfold DB.find at hf
   have hmem := List.mem_of_find?_eq_some hf
   have hname : tb.name = t := by simpa using List.find?_some hf
@@ -196,7 +203,8 @@ theorem lookup (h : Rel m db) {t : String} {tb : TableSpec} (hf : db.find t = so
   have hv := Option.some.inj hv
   have hn : (m.tables[id]).name = tb.name := (Prod.mk.inj hv).1
   have hc : (m.tables[id]).colNames = tb.colNames := (Prod.mk.inj hv).2
-  refine ⟨id, m.tables[id], ?_, List.getElem?_eq_getElem hlt', hid, hn.trans hname, hc, hname⟩
+  refine ⟨id, m.tables[id], ?_, List.getElem?_eq_getElem hlt', hid, hn.trans hname, hc, hname,
+    h.types id _ tb (List.getElem?_eq_getElem hlt') hid⟩
   apply (h.inv.tbls.get t id).mpr
   simp [Migration.tblNames, List.getElem?_eq_getElem hlt', hn, hname]
 
@@ -212,10 +220,10 @@ theorem unknown (h : Rel m db) {t : String} (hn : db.has t = false) : m.tblIdx.g
 theorem update (h : Rel m db) {id : Nat} {tm tm' : Table} {tb tb' : TableSpec} (hm : m.tables[id]? = some tm)
     (hd : db[id]? = some tb) (hinv : tm'.Inv) (hname : tm'.name = tm.name) (hadd : tm'.AllAdd)
     (hact : tm'.action = .add) (hp : tm'.pendingPos = none) (hn' : tb'.name = tb.name)
-    (hcols : tm'.colNames = tb'.colNames) (hnm : tm.name = tb.name) :
+    (hcols : tm'.colNames = tb'.colNames) (hnm : tm.name = tb.name) (hty : TypesOK tm' tb') :
     Rel { m with tables := m.tables.set id tm' } (db.replace tb') := by
   have hrep := replace_eq_set db h.nodup id tb tb' hd hn'
-  refine ⟨⟨?_, ?_⟩, ?_, ?_, ?_⟩
+  refine ⟨⟨?_, ?_⟩, ?_, ?_, ?_, ?_⟩
   · show NInv ((m.tables.set id tm').map (·.name)) _
     exact Table.ninv_set_same h.inv.tbls hm hname
   · intro x hx
@@ -237,18 +245,31 @@ theorem update (h : Rel m db) {id : Nat} {tm tm' : Table} {tb tb' : TableSpec} (
     have := h.view
     unfold colView specView at this
     rw [this, hname, hnm, hn', hcols]
-
+  · rw [hrep]
+    intro i x y hx hy
+    have hx : (m.tables.set id tm')[i]? = some x := hx
+    rw [List.getElem?_set] at hx hy
+    by_cases hii : id = i
+    · rw [if_pos hii] at hx hy
+      split at hx
+      · split at hy
+        · rw [← Option.some.inj hx, ← Option.some.inj hy]; exact hty
+        · cases hy
+      · cases hx
+    · rw [if_neg hii] at hx hy
+      exact h.types i x y hx hy
 
 /-- CREATE TABLE, first half: a table unknown to both sides is appended to both -/
 theorem append_table (h : Rel m db) (tm : Table) (tb : TableSpec) (hi : tm.Inv) (ha : tm.AllAdd) (hact : tm.action = .add)
-    (hp : tm.pendingPos = none) (hn : tm.name = tb.name) (hc : tm.colNames = tb.colNames) (hnew : db.has tb.name = false) :
+    (hp : tm.pendingPos = none) (hn : tm.name = tb.name) (hc : tm.colNames = tb.colNames) (hnew : db.has tb.name = false)
+    (hty : TypesOK tm tb) :
     ∃ m', m.addTable tm = .ok m' ∧ Rel m' (db ++ [tb]) ∧ m'.cursor = m.cursor := by
   have hg : m.tblIdx.get? tm.name = none := by rw [hn]; exact h.unknown hnew
   have hs : m.addTable tm = .ok { m with tables := m.tables ++ [tm], tblIdx := m.tblIdx.set tm.name m.tables.length } := by
     unfold Migration.addTable
     rw [hg]
     rfl
-  refine ⟨_, hs, ⟨Migration.addTable_inv m _ tm h.inv hi hs, Migration.addTable_pending m _ tm h.np hp hs, ?_, ?_⟩, rfl⟩
+  refine ⟨_, hs, ⟨Migration.addTable_inv m _ tm h.inv hi hs, Migration.addTable_pending m _ tm h.np hp hs, ?_, ?_, ?_⟩, rfl⟩
   · intro x hx
     have hx : x ∈ m.tables ++ [tm] := hx
     rcases List.mem_append.mp hx with h1 | h1
@@ -260,6 +281,24 @@ theorem append_table (h : Rel m db) (tm : Table) (tb : TableSpec) (hi : tm.Inv) 
     have := h.view
     unfold colView specView at this
     rw [this, List.map_singleton, List.map_singleton, hn, hc]
+  · intro i x y hx hy
+    have hx : (m.tables ++ [tm])[i]? = some x := hx
+    have hlen := h.length_eq
+    by_cases hi' : i < m.tables.length
+    · rw [List.getElem?_append_left hi'] at hx
+      rw [List.getElem?_append_left (by omega)] at hy
+      exact h.types i x y hx hy
+    · have hge : m.tables.length ≤ i := Nat.le_of_not_lt hi'
+      rw [List.getElem?_append_right hge] at hx
+      rw [List.getElem?_append_right (by omega)] at hy
+      cases hd : i - m.tables.length with
+      | zero =>
+        rw [hd] at hx
+        have : i - db.length = 0 := by omega
+        rw [this] at hy
+        simp only [List.getElem?_cons_zero] at hx hy
+        rw [← Option.some.inj hx, ← Option.some.inj hy]; exact hty
+      | succ k => rw [hd] at hx; simp at hx
 
 theorem resolve_ne (m : Migration) {t : String} (ht : t ≠ "") : m.resolve t = t := by
   unfold Migration.resolve
@@ -269,35 +308,41 @@ theorem resolve_ne (m : Migration) {t : String} (ht : t ≠ "") : m.resolve t = 
 /-- a statement that edits the named, existing table; the edit's effect on the column names is the reference engine's -/
 theorem edited (h : Rel m db) {t : String} {tb tb' : TableSpec} (hf : db.find t = some tb)
     (hn : tb'.name = tb.name) (site : String) (f : Table → M Table)
-    (hedit : ∀ tm, tm.Inv → tm.AllAdd → tm.pendingPos = none → tm.colNames = tb.colNames →
+    (hedit : ∀ tm, tm.Inv → tm.AllAdd → tm.pendingPos = none → tm.colNames = tb.colNames → TypesOK tm tb →
       ∃ tm', f tm = .ok tm' ∧ tm'.Inv ∧ tm'.name = tm.name ∧ tm'.AllAdd ∧ tm'.action = tm.action ∧
-        tm'.pendingPos = none ∧ tm'.colNames = tb'.colNames) :
+        tm'.pendingPos = none ∧ tm'.colNames = tb'.colNames ∧ TypesOK tm' tb') :
     ∃ m', (do let (m1, i) ← m.ensureTable t; m1.onTable site i f) = .ok m' ∧ Rel m' (db.replace tb') ∧
       m'.cursor = m.cursor := by
-  obtain ⟨id, tm, hg, hm, hd, hnm, hcols, htn⟩ := h.lookup hf
+  obtain ⟨id, tm, hg, hm, hd, hnm, hcols, htn, hty⟩ := h.lookup hf
   have hmem := List.mem_of_getElem? hm
-  obtain ⟨tm', hft, hi', hn', ha', hact', hp', hc'⟩ :=
-    hedit tm (h.inv.each tm hmem) (h.fresh tm hmem).1 (h.np tm hmem) hcols
+  obtain ⟨tm', hft, hi', hn', ha', hact', hp', hc', hty'⟩ :=
+    hedit tm (h.inv.each tm hmem) (h.fresh tm hmem).1 (h.np tm hmem) hcols hty
   refine ⟨{ m with tables := m.tables.set id tm' }, Migration.edit_known m t site f id tm tm' hg hm hft, ?_, rfl⟩
-  exact h.update hm hd hi' hn' ha' (by rw [hact']; exact (h.fresh tm hmem).2) hp' hn hc' (hnm.trans htn.symm)
+  exact h.update hm hd hi' hn' ha' (by rw [hact']; exact (h.fresh tm hmem).2) hp' hn hc' (hnm.trans htn.symm) hty'
 
 /-- a statement that edits the named, existing table by a total primitive which keeps names and actions of the columns,
     while the reference engine leaves that table's columns alone -/
 theorem framed (h : Rel m db) {t : String} {tb tb' : TableSpec} (hf : db.find t = some tb)
-    (hn : tb'.name = tb.name) (hc : tb'.colNames = tb.colNames) (site : String) (f : Table → M Table)
+    (hn : tb'.name = tb.name) (hc : tb'.cols = tb.cols) (site : String) (f : Table → M Table)
     (htot : ∀ tm, tm.Inv → ∃ tm', f tm = .ok tm')
     (hfr : ∀ tm tm', tm.Inv → f tm = .ok tm' → tm'.Inv ∧ tm'.name = tm.name ∧ Table.Frame tm tm') :
     ∃ m', (do let (m1, i) ← m.ensureTable t; m1.onTable site i f) = .ok m' ∧ Rel m' (db.replace tb') := by
-  obtain ⟨id, tm, hg, hm, hd, hnm, hcols, htn⟩ := h.lookup hf
+  obtain ⟨id, tm, hg, hm, hd, hnm, hcols, htn, hty⟩ := h.lookup hf
   have hmem := List.mem_of_getElem? hm
   have hi := h.inv.each tm hmem
   obtain ⟨tm', hft⟩ := htot tm hi
   obtain ⟨hi', hn', hframe⟩ := hfr tm tm' hi hft
   refine ⟨_, Migration.edit_known m t site f id tm tm' hg hm hft, ?_⟩
-  refine h.update hm hd hi' hn' (Table.allAdd_of_sig hframe.sig (h.fresh tm hmem).1) ?_ ?_ hn ?_ (hnm.trans htn.symm)
+  refine h.update hm hd hi' hn' (Table.allAdd_of_sig hframe.sig (h.fresh tm hmem).1) ?_ ?_ hn ?_ (hnm.trans htn.symm) ?_
   · rw [hframe.action]; exact (h.fresh tm hmem).2
   · rw [hframe.pending]; exact h.np tm hmem
-  · rw [Table.names_of_sig hframe.sig, hcols, hc]
+  · rw [Table.names_of_sig hframe.sig, hcols]
+    show tb.cols.map (·.name) = tb'.cols.map (·.name)
+    rw [hc]
+  · intro c hcm
+    obtain ⟨c0, hc0, hn0, ht0⟩ := Table.mem_of_sig hframe.sig hcm
+    obtain ⟨cs, hcs, hcsn, hcst⟩ := hty c0 hc0
+    exact ⟨cs, by rw [hc]; exact hcs, hcsn.trans hn0, by rw [← ht0]; exact hcst⟩
 
 end Rel
 end Sqlize
